@@ -34,7 +34,9 @@ func genProg(r *ref.R) *mon.Prog {
 func genProgPlain(r *ref.R) *mon.Prog {
 	p := &mon.Prog{}
 	for n := r.Intn(9); n > 0; n-- {
-		switch r.Intn(10) {
+		switch r.Intn(11) {
+		case 10: // edits a value in place (no Set/Add/Del): after the first Write it must stay invisible for HEAD as it is for GET
+			p.Steps = append(p.Steps, mon.Step{Op: "edit", Key: ref.Pick(r, progKeys), Val: "edited" + fmt.Sprint(r.Intn(50))})
 		case 0, 1:
 			p.Steps = append(p.Steps, mon.Step{Op: "set", Key: ref.Pick(r, progKeys), Val: fmt.Sprint(r.Intn(50))})
 		case 2:
